@@ -67,6 +67,8 @@ def run(chk):
         okk = all(o.eq(a.get(k), o.spec(f"self.{k}")) for k in ("mesh", "nvdim", "vdims", "valid", "vdim_mapping"))
         chk.ob("field.Field.orientation::metadata", okk, "C15.D3", "mesh, nvdim, vdims, valid and vdim_mapping must be kept", o.f, r)
 
+    cm.no_dtype_narrowing(chk, repo, "C15", "C15.D1", ["field.Field.norm", "field.Field.orientation"],
+                          "lengths and unit vectors are not integers - an integer-typed field would be truncated")
     chk.rule("C15.D4", "a norm is applied once: the constructor converts values, then applies the norm, then the validity; no "
                        "slot stores a norm and update_field_values does not refer to one")
     i = FV(repo, "field.Field.__init__")
